@@ -15,10 +15,8 @@ Supported subset and its source:
   erase [mem] addr | a..b | all, erase unsecure all, enable [mem] addr, jump addr [(arg)], jump_sp sp addr [(arg)],
   version_check sec|nsec v, keystore_to_nv/keystore_from_nv @mem addr, keywrap (id) { load {{kek}} > addr; },
   encrypt (id) { load <file|source> > addr; }
-`call addr [(arg)]` and `reset` are supported statements of the property (CALL / RESET commands exist in commands.py), but
-`SB21Helper` has no handler for them (KeyError): known finding C19-call-reset.
-The section id written in `section (n)` is the id of the boot section (schema: "ID of the section"); `load_from_config`
-numbers the sections by position instead: known finding C19-section-id.
+`call addr [(arg)]` -> CALL, `reset` -> RESET.  The section id written in `section (n)` is the id of the boot section
+(schema: "ID of the section").
 -/
 import SpsdkVerif.Spec.BdSem
 import SpsdkVerif.Model.BdStmt
@@ -82,7 +80,7 @@ def keyblobOf (kbs : List KeyBlobDef) (id : Int) : Option (Int × Int × String 
       if isHexStr key && isHexStr ctr then
         -- `byteSwap [boolean, optional] - true for byte swap` (elf2sb.md)
         match k.content.get? "byteSwap" with
-        | none => some (st, en, key, ctr, false)
+        | none => if (k.content.get? "byte_swap").isSome then none else some (st, en, key, ctr, false)
         | some (.i v) => some (st, en, key, ctr, v != 0)
         | some (.s _) => none
       else none
@@ -183,21 +181,6 @@ def cmdOf (env : Env) (kbs : List KeyBlobDef) : Stmt → Option Cmd
     let (st, en, key, ctr, swap) ← keyblobOf kbs i
     if isAddr a then some (.loadCrypto "encrypt" a st en key ctr (hexOfBytes bs) swap) else none
   | _ => none
-
-/-- `call` / `reset`: parsed, but refused by `SB21Helper` (known finding C19-call-reset) -/
-def isCallOrReset : Stmt → Bool
-  | .call _ _ => true
-  | .reset => true
-  | _ => false
-
-/-- `encrypt` with a key blob that asks for byte swapping: the option is ignored (known finding C19-keyblob-byteswap) -/
-def isSwappedEncrypt (env : Env) (kbs : List KeyBlobDef) : Stmt → Bool
-  | .encrypt id _ _ _ => match intOf env id with
-    | some i => match keyblobOf kbs i with
-      | some (_, _, _, _, swap) => swap
-      | none => false
-    | none => false
-  | _ => false
 
 /-- ids of the boot sections: the ids written in the file -/
 def sectionUids (cfg : Config) : Option (List Int) :=
